@@ -221,6 +221,7 @@ def typed_cases(ctx, obj, tree, back, wtags, in_domain=None):
 def run(rep, tier, rng):
     from ofxtools.Client import OFXClient
     from ofxtools.Parser import OFXTree
+    shared_tree = OFXTree()
     ctx = H.Ctx()
     if ctx.d["problems"]:
         rep.broken.append("translator not complete: %s" % ctx.d["problems"][:3])
@@ -276,7 +277,10 @@ def run(rep, tier, rng):
                     try:
                         with warnings.catch_warnings(record=True) as w:
                             warnings.simplefilter("always")
-                            t = OFXTree(); t.parse(io.BytesIO(data)); got = t.convert()
+                            # pretty files are read with ONE long-lived OFXTree (an application reading many files through one reader), plain ones with a fresh one
+                            t = shared_tree if pretty else OFXTree()
+                            case["reader"] = "one OFXTree reused for every file" if pretty else "fresh OFXTree"
+                            t.parse(io.BytesIO(data)); got = t.convert()
                         err = None
                     except Exception as e:
                         got, err = None, e
